@@ -2675,25 +2675,25 @@ bool table_has_caption(token * t) {
 		t = t->next->child;
 
 		if (t->type == PAIR_BRACKET) {
+			// [caption], [caption][label] or [caption] [label], and nothing
+			// else in the paragraph -- "[text](url)" is a link, not a caption
 			t = t->next;
 
-			if (t && t->next &&
+			if (t && t->type == TEXT_PLAIN && t->next &&
 					t->next->type == PAIR_BRACKET) {
 				t = t->next;
 			}
 
-			if (t == NULL) {
-				// End of file
-				return true;
-			}
-
-			if (t && t->next &&
-					((t->next->type == TEXT_NL) ||
-					 (t->next->type == TEXT_LINEBREAK))) {
+			if (t && t->type == PAIR_BRACKET) {
 				t = t->next;
 			}
 
-			if (t && t->next == NULL) {
+			if (t && ((t->type == TEXT_NL) ||
+					  (t->type == TEXT_LINEBREAK))) {
+				t = t->next;
+			}
+
+			if (t == NULL) {
 				return true;
 			}
 		}
